@@ -16,6 +16,7 @@ import re, copy, os
 MAX_DEPTH = 4
 MAX_BLOCKS = 4000
 SMALL_HELPER_BLOCKS = 8
+SROA_EXCLUDE = ('idl::', 'json_ser::', '<idl::', '<json_ser::')
 SPLIT_EXCLUDE = ('idl::', 'json_ser::', '<idl::', '<json_ser::',     # engines L, M and J anchor on the functions as written
                  'server::')                                        # the server rules explore paths with facts themselves (engine B')
 
@@ -598,6 +599,9 @@ class Normal:
                 nb = b
             else:
                 d2 = inline_body(b.d, self.absorbed, raw_by_path) if self.absorbed else b.d
+                if not b.path.startswith(SROA_EXCLUDE) and not os.environ.get('ZL_NOSROA'):
+                    import sroa as _sroa
+                    d2 = _sroa.sroa(d2, crate)
                 d3 = thread_flags(d2)
                 if not b.path.startswith(SPLIT_EXCLUDE) and '::_serde::' not in b.path and not os.environ.get('ZL_NOSPLIT'):
                     import splitflags
